@@ -190,6 +190,7 @@ pub fn worker_main(check: &Check, args: &[String]) -> i32 {
     let outfile = args[7].clone();
     let progress = std::env::var("ABV_PROGRESS").ok();
     util::install_quiet_panic_hook();
+    util::start_cpu_watchdog(Some(format!("{}.cpuwatch", outfile)), None);
     let ctx = Ctx {
         prop: check.id,
         tier,
@@ -206,7 +207,8 @@ pub fn worker_main(check: &Check, args: &[String]) -> i32 {
             let _ = std::fs::write(p, index.to_string());
         }
         rep.evaluations += 1;
-        let r = util::catch(|| (check.run_case)(&ctx, index, &mut rep));
+        util::CURRENT_INDEX.store(index, std::sync::atomic::Ordering::Relaxed);
+        let r = util::catch_harness(|| (check.run_case)(&ctx, index, &mut rep));
         if let Err(msg) = r {
             if msg.contains("/repo/") || msg.contains("abasic-") {
                 ctx.violation(
@@ -252,6 +254,8 @@ fn tmp_dir() -> PathBuf {
 }
 
 struct ShardOutcome {
+    /// Some((case index, CPU seconds)) when the worker's CPU watchdog cut off a call that did not return
+    cpu_trip: Option<(u64, u64)>,
     report: Option<Report>,
     /// Some(description) when the process died abnormally
     death: Option<String>,
@@ -289,7 +293,7 @@ fn run_shards(check: &Check, tier: Tier, seed: u64, w: &Workload) -> Vec<ShardOu
     let deadline = Instant::now() + Duration::from_secs(w.watchdog_s);
     let mut outcomes = vec![];
     for (shard, outfile, child) in children {
-        let mut outcome = ShardOutcome { report: None, death: None, timed_out: false };
+        let mut outcome = ShardOutcome { cpu_trip: None, report: None, death: None, timed_out: false };
         match child {
             Err(e) => {
                 outcome.death = None;
@@ -343,6 +347,14 @@ fn run_shards(check: &Check, tier: Tier, seed: u64, w: &Workload) -> Vec<ShardOu
                                 outcome.report = Some(r)
                             }
                             None => outcome.death = Some("worker exited 0 without a report".into()),
+                        }
+                    } else if st.code() == Some(util::CPU_WATCHDOG_EXIT) {
+                        let wf = format!("{}.cpuwatch", outfile.display());
+                        let v = std::fs::read_to_string(&wf).ok().and_then(|t| serde_json::from_str::<Value>(&t).ok());
+                        let _ = std::fs::remove_file(&wf);
+                        match v {
+                            Some(v) => outcome.cpu_trip = Some((v["index"].as_u64().unwrap_or(0), v["cpu_seconds"].as_u64().unwrap_or(0))),
+                            None => outcome.death = Some("worker exited with the CPU watchdog's code but left no report".into()),
                         }
                     } else {
                         use std::os::unix::process::ExitStatusExt;
@@ -426,6 +438,22 @@ pub fn parent_main(check: &Check, tier: Tier) -> i32 {
                     "workload {} shard {}: watchdog ({} s) fired or worker could not be spawned",
                     w.name, shard, w.watchdog_s
                 ));
+                continue;
+            }
+            if let Some((index, cpu_s)) = o.cpu_trip {
+                merged.violation(Violation {
+                    property: "C09".to_string(),
+                    signature: format!("call-does-not-return:cpu:{}", w.name),
+                    workload: w.name.to_string(),
+                    profile: w.profile.to_string(),
+                    seed,
+                    index,
+                    explanation: format!(
+                        "one call into the repository's code used {} s of CPU time without handing control back (case {} of workload {}; the budget is {} s, the longest legitimate call is under 1 s); the case is regenerated by --replay",
+                        cpu_s, index, w.name, util::CPU_BUDGET_TICKS / 100
+                    ),
+                    case: json!({"note": "regenerate with: ./check <ID> --replay <this file>"}),
+                });
                 continue;
             }
             if let Some(death) = o.death {
@@ -627,7 +655,9 @@ pub fn replay_main(checks: &[Check], path: &Path) -> i32 {
     };
     let index = v.get("index").and_then(|x| x.as_u64()).unwrap_or(0);
     let mut rep = Report::default();
-    let r = util::catch(|| (check.run_case)(&ctx, index, &mut rep));
+    util::CURRENT_INDEX.store(index, std::sync::atomic::Ordering::Relaxed);
+    util::start_cpu_watchdog(None, Some(path.display().to_string()));
+    let r = util::catch_harness(|| (check.run_case)(&ctx, index, &mut rep));
     if let Err(m) = r {
         println!("case panicked: {}", m);
         println!("VIOLATION property={} replay={}", check.id, path.display());
